@@ -86,15 +86,25 @@ func renderSrcDsc(s SrcModel) string {
 	b.scalar("Version", s.version())
 	b.scalar("Maintainer", "A B <a@b.c>")
 	text := b.sb.String()
+	files := "Files:\n d41d8cd98f00b204e9800998ecf8427e 0 " + s.Name + "_" + s.version() + ".dsc\n"
+	bd := ""
 	for i, f := range bdFields {
 		if len(s.BD[i].Rels) > 0 {
-			text += renderDepStyled(f, s.BD[i], s.Styles[i])
+			bd += renderDepStyled(f, s.BD[i], s.Styles[i])
 		}
 	}
-	return text + "Files:\n d41d8cd98f00b204e9800998ecf8427e 0 " + s.Name + "_" + s.version() + ".dsc\n"
+	switch s.FoldMask % 4 {
+	case 1:
+		// the build-dependency fields as the last fields of the paragraph, a blank line behind them
+		return text + files + bd + "\n"
+	case 2:
+		// ... or the file ending inside the last of them
+		return strings.TrimSuffix(text+files+bd, "\n")
+	}
+	return text + bd + files
 }
 
-var buildArches = []string{"amd64", "i386", "arm64", "hurd-i386", "kfreebsd-amd64"}
+var buildArches = []string{"amd64", "i386", "arm64", "hurd-i386", "kfreebsd-amd64", "freebsd-amd64", "netbsd-i386", "darwin-arm64", "musl-linux-arm64"}
 
 // genOrderCase builds a build-dependency graph.
 func genOrderCase(t *rapid.T) OrderCase {
@@ -344,7 +354,7 @@ func hasCycle(n int, edges [][2]int) (cycle bool, onlySelf bool) {
 
 var specC19 = Register(&Spec[OrderCase]{
 	Prop: "C19", Name: "order",
-	Rule: "random build-dependency graphs over 1..12 sources (named src<i>, or composed of short syllables so that names are prefixes/suffixes/concatenations of each other) with 1..4 binaries each - uniquely named, except that in 1/5 of the cases one binary is also listed by a second source and in 1/6 two of the sources carry the same Source name (two versions side by side or - half of them - the same version twice, as two suites carry one upload; with the same or different binaries); edges 'v build-depends on binary b of u' chosen acyclic (forward edges over a hidden order), with a planted cycle of length 2..4 (1/4 of cases) or a self-dependency; each edge goes to Build-Depends, -Arch or -Indep, one in five with a multiarch qualifier (:native, :any, :amd64 ...), one in four with a version clause (any of the five operators; versions below, at and above the ones the given sources carry), one in four with one or two build-profile groups (<!nocheck>, <stage1>, <!stage1 !cross> ...), as a plain relation or inside alternatives/arch lists so that the in-graph binary is, or deliberately is not, the first alternative admitted for the build architecture, with substvars and out-of-graph packages mixed in (in one case of ten a few hundred of them on one line of 5 to 12 KiB in front of the relations that matter); 3/4 of edges go through a binary that is NOT the first of its source; every source is rendered as real .dsc text (Binary 'a, b, c' single-line or folded; Architecture any / all / any all / amd64 ...; dependency fields single-line, folded after the commas, folded at every gap - inside arch lists and profile groups too - or wrap-and-sort), parsed with control.ParseDsc - or, in half of the cases, decoded one after the other into ONE DSC variable whose value is copied into the list each time - and handed over in a generated permutation. Oracle: model edge set E (C06 selection oracle; a build-dependency on a binary orders the source after EVERY source that builds it); E acyclic => no error, result is a permutation of the input and pos(u) < pos(v) for every edge; a cycle through >= 2 sources => error; only self-dependencies => either; three runs agree. Non-trivial: >= 1 edge through a non-first binary or decided by an alternative; distinct by case.",
+	Rule: "random build-dependency graphs over 1..12 sources (named src<i>, or composed of short syllables so that names are prefixes/suffixes/concatenations of each other) with 1..4 binaries each - uniquely named, except that in 1/5 of the cases one binary is also listed by a second source and in 1/6 two of the sources carry the same Source name (two versions side by side or - half of them - the same version twice, as two suites carry one upload; with the same or different binaries); edges 'v build-depends on binary b of u' chosen acyclic (forward edges over a hidden order), with a planted cycle of length 2..4 (1/4 of cases) or a self-dependency; each edge goes to Build-Depends, -Arch or -Indep, one in five with a multiarch qualifier (:native, :any, :amd64 ...), one in four with a version clause (any of the five operators; versions below, at and above the ones the given sources carry), one in four with one or two build-profile groups (<!nocheck>, <stage1>, <!stage1 !cross> ...), as a plain relation or inside alternatives/arch lists so that the in-graph binary is, or deliberately is not, the first alternative admitted for the build architecture, with substvars and out-of-graph packages mixed in (in one case of ten a few hundred of them on one line of 5 to 12 KiB in front of the relations that matter); 3/4 of edges go through a binary that is NOT the first of its source; every source is rendered as real .dsc text (the build-dependency fields in the middle of the paragraph or - in half of the sources - as its last fields, followed by a blank line or by the end of the file without a line end; build architecture one of nine, among them freebsd-amd64, netbsd-i386, darwin-arm64, musl-linux-arm64; Binary 'a, b, c' single-line or folded; Architecture any / all / any all / amd64 ...; dependency fields single-line, folded after the commas, folded at every gap - inside arch lists and profile groups too - or wrap-and-sort), parsed with control.ParseDsc - or, in half of the cases, decoded one after the other into ONE DSC variable whose value is copied into the list each time - and handed over in a generated permutation. Oracle: model edge set E (C06 selection oracle; a build-dependency on a binary orders the source after EVERY source that builds it); E acyclic => no error, result is a permutation of the input and pos(u) < pos(v) for every edge; a cycle through >= 2 sources => error; only self-dependencies => either; three runs agree. Non-trivial: >= 1 edge through a non-first binary or decided by an alternative; distinct by case.",
 	Check: func(c OrderCase, r *Recorder) error {
 		n := len(c.Sources)
 		cm, _ := archModel(c.Arch)
